@@ -4,7 +4,7 @@ import numpy as np
 from harness import common as C
 from harness import eofgen as G
 
-ANCHORS = ["T5pop", "T5flag", "T7inplace", "T7hist"]
+ANCHORS = ["T5pop", "T5flag", "T7inplace", "T7hist", "T9text"]
 MODELS = ["PopCase"]
 RULE = ("time-ordered multivariate series with more samples than retained PCs: random red noise (VAR(1)) and noise-free damped oscillators "
         "x_{t+1} = A x_t with prescribed eigenvalues rho e^{+-i omega} (plus optional real ones), embedded in p >= q features; use_pca on/off, "
